@@ -65,7 +65,7 @@ def main():
         res['checks'] = {}
         for pid in checks:
             t0 = time.time()
-            rc, out = sh([os.path.join(VERIF, 'check'), pid, '--tier', a.tier], VERIF, dict(os.environ, VERIF_REPO=mut))
+            rc, out = sh([os.path.join(VERIF, 'check'), pid, '--tier', a.tier], VERIF, dict(os.environ, VERIF_REPO=mut, VERIF_NO_EVIDENCE='1'))
             viol = [ln for ln in out.splitlines() if ln.startswith('VIOLATION')]
             res['checks'][pid] = {'rc': rc, 'violations': len(viol), 'first': viol[0][-160:] if viol else out[-200:] if rc == 2 else '',
                                   'wall_s': round(time.time() - t0, 1)}
